@@ -619,7 +619,13 @@ type replyPlan struct {
 	Class string   `json:"class"` // canon | error | mutated | bytes | misroute
 	Seed  int64    `json:"seed"`
 	Muts  []string `json:"mutations,omitempty"` // filled in at run time (kinds are a function of Seed)
-	Sent  string   `json:"sent,omitempty"`      // what was put on the wire (run time; for the witness)
+	// Split: the reply is delivered in pieces (cut offsets are a function of Seed
+	// and the reply) and the helper's context is cancelled before piece CancelAt
+	// (number of pieces = after the last one, -1 = never).
+	Split    bool   `json:"split,omitempty"`
+	Cuts     []int  `json:"cuts,omitempty"`
+	CancelAt int    `json:"cancel_at,omitempty"`
+	Sent     string `json:"sent,omitempty"` // what was put on the wire (run time; for the witness)
 }
 
 type helperCase struct {
@@ -666,6 +672,10 @@ func genHelperCase(r *rand.Rand, i int) *helperCase {
 				p.Class = "canon"
 			}
 		}
+		// (derived from the plan's seed, so that the classes above stay what they were)
+		if round >= 1 && rand.New(rand.NewSource(p.Seed^0x5bd1e995)).Intn(5) < 2 {
+			p.Split = true
+		}
 		hc.Plans = append(hc.Plans, p)
 	}
 	return hc
@@ -696,6 +706,12 @@ func buildReply(h *helper, p *replyPlan, req *xmltree.Node, n int) string {
 	origName, origNS, origType := last.Name, last.NS, last.get("type")
 	var muts []string
 	class := p.Class
+	if (class == "error" || class == "error-mutated") && (last.Name == "presence" || last.Name == "message") && last.Name == req.Name.Local {
+		// the addressee refuses a presence / message: same id, type error
+		last.set("type", "error")
+		origType = "error"
+		last.add(stanzaErr([]string{"cancel", "auth", "wait"}[r.Intn(3)], []string{"not-authorized", "forbidden", "remote-server-not-found", "service-unavailable"}[r.Intn(4)], []string{"", "refused"}[r.Intn(2)]))
+	}
 	if class == "error" || class == "error-mutated" {
 		if last.Name == "iq" {
 			last.set("type", "error")
@@ -771,6 +787,21 @@ func buildReply(h *helper, p *replyPlan, req *xmltree.Node, n int) string {
 		out, k = mutateBytes(r, out, discoInfoReply().str())
 		muts = append(muts, "bytes-"+k)
 	}
+	if p.Split && class != "bytes" {
+		// offset of the stanza that answers the request inside out
+		off := 0
+		for _, s := range stanzas[:len(stanzas)-1] {
+			if prefixed {
+				off += len(s.strPrefixed())
+			} else {
+				off += len(s.str())
+			}
+		}
+		p.Cuts, p.CancelAt = chooseSplit(rand.New(rand.NewSource(p.Seed^0x2545f491)), out, off)
+		muts = append(muts, fmt.Sprintf("split%d-cancel@%d", len(p.Cuts)+1, p.CancelAt))
+	} else {
+		p.Split = false
+	}
 	sort.Strings(muts)
 	p.Muts = muts
 	p.Sent = out
@@ -830,8 +861,16 @@ func runHelperCase(c *core.Case, hc *helperCase) {
 		if p.Class == "misroute" || p.Class == "bytes" {
 			unroutable = true
 		}
+		if p.Split && p.CancelAt >= 0 {
+			silent = true // the helper is being abandoned: this is the peer's last answer
+		}
+		a := e.acts["helper:"+h.name]
 		e.mu.Unlock()
-		e.peerWrite(out + fmt.Sprintf(sentinelPing, sid))
+		if p.Split && n >= len(hc.Fixed) {
+			e.deliverSplit(out, p.Cuts, p.CancelAt, a, fmt.Sprintf(sentinelPing, sid))
+		} else {
+			e.peerWrite(out + fmt.Sprintf(sentinelPing, sid))
+		}
 	}
 	isReq := func(n *xmltree.Node) bool {
 		typ := n.Attr("type")
